@@ -9,8 +9,11 @@ order_edges uses one 'unlabelled' marker consistently and assigns positive incre
 collide with it; (EXTENSION) pdag_to_cpdag = dag_to_cpdag(pdag_to_dag(pdag)) with the ValueError of the
 extension search propagating; (INDEX) in pdag_to_dag the shrinking local matrix and the list of real
 node names shrink together under the same condition, and every write into the result uses real names
-on both axes.
-Not decided: which edges Chickering's ordering / labelling marks compelled vs reversible.
+on both axes; (STEP) the passes of order_edges and label_edges role by role: which edge is selected, column vs
+row of every lookup, what each branch writes, the end of a pass, and the compelled / reversible choice as a set
+predicate over pa(y), {x}, pa(x) in every admissible world; (PATTERN) also for pdag_to_dag / pdag_to_cpdag (the
+extension may carry weights, no decision may read them); lints: truth value of node labels, np.isin with a set.
+Not decided: that an algorithm of this shape marks exactly the compelled edges (Chickering's theorem).
 """
 from .common import *
 from ..pred import npred
@@ -449,4 +452,4 @@ def run(prog, rep, tier):
     rep.require_count("LABELS", 4)
     rep.require_count("PAT.entry", 4)
     rep.require_count("INDEX", 3)
-    rep.assume("which edges are compelled / reversible (Chickering's algorithm) is not decided")
+    rep.assume("that the verified steps of Chickering's ordering / labelling algorithm mark exactly the compelled edges is a theorem, not decided here")
